@@ -1,7 +1,6 @@
 package main
 
 import (
-	"slices"
 	"context"
 	"crypto/x509"
 	"encoding/pem"
@@ -10,9 +9,11 @@ import (
 	"net"
 	"os"
 	"path/filepath"
+	"slices"
 	"sort"
 	"strings"
 	"time"
+	"verif/monlog"
 
 	"github.com/scionproto/scion/pkg/addr"
 	"github.com/scionproto/scion/pkg/scrypto"
@@ -254,7 +255,7 @@ func (s *c35Session) notify(id cppki.TRCID, kind string, script map[int]string) 
 	if s.dead {
 		return
 	}
-	ctx := context.Background()
+	ctx := monlog.Alternate() // log level is a configuration dimension
 	s.f.script, s.f.log = script, nil
 	s.db.inserts = nil
 	prevLatest := s.latest
